@@ -72,6 +72,9 @@ claim("C07", "closed-form constants + per-branch store signatures with normalise
 claim("C05", "truth table of the masking decision read off the switchInt chain (all assignments of its comparison atoms) + structural identity of the expansion/filter pipelines + const-item fill, over rustc MIR",
       "Sound static decision of the second sentence of C05 only: a dynamic-window observation's precision is zeroed exactly when its window span touches an unvoiced frame or the utterance edge ((left < left_width or right < right_width) and window != static), frames outside the voicing mask carry the no-data constant, and the mask and every per-window parameter sequence are expanded by the same durations and filtered by the same mask (frame -> state assignment shared). NOT decided: that the banded LDL solve maximises the likelihood.")
 
+claim("C12", "polynomial form of the GV target + taint from the weight inside the solver entry (GV-less path independent) + read-set of the weight + no-effect rule for the zero-eligible-frames return + structural identity of the switch pipeline, over rustc MIR",
+      "Sound static decision of the structural clauses of C12: the GV target is gv_mean[vector_index] x gv_weight; a stream without GV returns the plain ML solution independently of the weight, and the weight is read nowhere else; with no eligible frame the trajectory is returned unmodified; the per-state switch is !gv_off_context.test(label), expanded by the same durations and filtered by the same mask as the parameters, and both the variance rescaling and the GV gradient term touch switched-on frames only. NOT decided: the 20 % variance law and monotonicity (numerical).")
+
 
 def main():
     props = [json.loads(l) for l in open(os.path.join(VERIF, "properties.jsonl"))]
